@@ -121,15 +121,20 @@ func Interval(interval time.Duration) Observable[int64] {
 // Play: https://go.dev/play/p/Xhi6c336ldy
 func IntervalWithInitial(initial, interval time.Duration) Observable[int64] {
 	return NewObservableWithContext(func(ctx context.Context, destination Observer[int64]) Teardown {
-		// The ticker only matters once the initial delay has elapsed (it is reset to `interval`
-		// then); until that it must not fire first, hence twice the initial delay. A zero initial
-		// delay would make that period zero, which time.NewTicker rejects.
-		tickerPeriod := initial * 2
-		if initial == 0 {
-			tickerPeriod = interval
+		// The ticker only matters once the initial delay has elapsed: it stays stopped until the
+		// initial timer has been handled (ticker.Reset below), so it can never fire first, however
+		// late this goroutine gets to run.
+		ticker := time.NewTicker(interval)
+		if initial != 0 {
+			ticker.Stop()
+
+			// drop a tick that fired before the ticker was stopped
+			select {
+			case <-ticker.C:
+			default:
+			}
 		}
 
-		ticker := time.NewTicker(tickerPeriod)
 		timer := time.NewTimer(initial)
 		done := make(chan struct{}, 1)
 
